@@ -784,7 +784,7 @@ func nativeReplay(h Harness, rfPath string) (string, string) {
 	ovj, _ := json.Marshal(map[string]any{"Replace": ov})
 	ovPath := filepath.Join(tmp, "overlay.json")
 	os.WriteFile(ovPath, ovj, 0o644)
-	cmd := exec.Command("go", "test", "-v", "-tags", "verif", "-vet=off", "-count=1", "-run", "^TestVerifReplay$", "-timeout", "120s", "-overlay", ovPath, "./"+harnessPkgDir(h))
+	cmd := exec.Command("go", "test", "-v", "-tags", "verif", "-vet=off", "-count=1", "-run", "^TestVerifReplay$", "-timeout", "60s", "-overlay", ovPath, "./"+harnessPkgDir(h))
 	cmd.Dir = repoDir
 	cmd.Env = append(goEnv(), "VERIF_REPLAY="+rfPath)
 	out, _ := cmd.CombinedOutput()
@@ -928,7 +928,11 @@ func cmdCheck(args []string) {
 		for _, v := range rep.violations {
 			key := v.Ob.Kind + "|" + v.Ob.ID
 			if v.Ob.Kind == "nopanic" {
-				key += "|" + v.Ob.Msg
+				if strings.HasPrefix(v.Ob.Msg, "deadlock") {
+					key += "|deadlock" // the blocked-goroutine description differs per schedule
+				} else {
+					key += "|" + v.Ob.Msg
+				}
 			}
 			if seen[key] {
 				continue
